@@ -277,3 +277,17 @@ def fisinf(x):
 
 def is_float(x):
     return isinstance(x, (float, symfloat.SymFloat))
+
+
+def new_dict(items=()):
+    """a dict in the active mode (solver-aware SymDict when symbolic)"""
+    if S.ctx is not None:
+        from .symdict import SymDict
+        return SymDict(items)
+    return dict(items)
+
+
+def new_bytearray(items=()):
+    if S.ctx is not None:
+        return symbytes.SymByteArray(list(items))
+    return bytearray(items)
